@@ -523,6 +523,7 @@ class Ctx:
                 for h in json.load(open(side)).get("hits", []):
                     if h["n"]:
                         self.probe_hits[h["name"]] = self.probe_hits.get(h["name"], 0) + h["n"]
+                        self.cover["branch:" + h["name"]] = self.cover.get("branch:" + h["name"], 0) + h["n"]
             except Exception:
                 pass
         return out
